@@ -502,7 +502,14 @@ pub struct StraceCall {
 
 impl StraceCall {
     pub fn ret_val(&self) -> Option<i64> {
-        self.ret.trim().split(' ').next()?.parse().ok()
+        // "5", "5</path>", "-1 ENOENT (...)", "0x7f.." (not numeric: None)
+        let t = self.ret.trim();
+        let end = t
+            .char_indices()
+            .find(|(i, c)| !(c.is_ascii_digit() || (*i == 0 && *c == '-')))
+            .map(|(i, _)| i)
+            .unwrap_or(t.len());
+        t[..end].parse().ok()
     }
 }
 
